@@ -578,15 +578,22 @@ class t2listing(object):
             self.skip_to_nonblank()
             tname = 'element'
             nelt_tables = 0
-        else: tname = last_tablename
+            in_table = False
+        else:
+            tname = last_tablename
+            in_table = True # have read rows from the last table
         while tname != tablename:
             if tname == 'primary': keyword='_____'
             else: keyword = '@@@@@'
-            self.skipto(keyword,0)
+            # (the primary table has the same delimiter below its
+            # header as at its end, which next_table() skips to:)
+            if not (in_table and tname == 'primary'): self.skipto(keyword,0)
+            in_table = False
             tname = self.next_table_TOUGHplus()
             if tname == 'element':
                 nelt_tables += 1
                 tname += str(nelt_tables)
+        return nelt_tables # (number of element tables passed, not just selected)
 
     def start_of_values(self, line, columns):
         """Returns start index of values in a table line.  Characters before
@@ -1054,8 +1061,9 @@ class t2listing(object):
                     if is_short: tablename = tname[0].upper() + 'SHORT'
                     else: tablename = tname
                     if not (is_short and not (tablename in self.short_types)):
-                        self.skip_to_table(tname, last_tname, nelt_tables)
-                        if tname.startswith('element'): nelt_tables += 1
+                        n = self.skip_to_table(tname, last_tname, nelt_tables)
+                        if n is not None: nelt_tables = n
+                        elif tname.startswith('element'): nelt_tables += 1
                         cols = self._table[tname].column_name
                         ncols = self._table[tname].num_columns
                         expected_floats = self.table_expected_floats(tname, cols)
